@@ -33,7 +33,6 @@ Variables E D : bytes -> bytes -> bytes.
 Variable modexp : Z -> Z -> Z -> Z.
 Variable is_prime : N -> bool.
 Variable split : N -> option (N * N).
-Variable foreign_ok : bytes -> bool.
 
 Hypothesis H_len : forall m, length (H m) = 20%nat.
 Hypothesis H_ok : forall m, okb (H m).
@@ -230,10 +229,10 @@ Qed.
 
 Notation env0 := (srv_env H E D modexp sp).
 
-Lemma request1 : request foreign_ok [] f1 env0
+Lemma request1 : request [] f1 env0
   = ([SendPlain f1], Go (RResPQ (of_be nonce) (of_be srvn) pqb (offered H sp), [f1])).
 Proof.
-  unfold request. cbn [app wbind emit]. cbn [srv_env]. rewrite r1_is, r1_dec. reflexivity.
+  unfold request. cbn [app wbind emit]. unfold srv_env. cbv beta iota. rewrite r1_is. cbn [option_map]. rewrite r1_dec. reflexivity.
 Qed.
 
 Lemma pq_guard : negb ((of_be pqb <=? 1) || (64 <? N.size (of_be pqb)) || is_prime (of_be pqb)) = true.
@@ -246,7 +245,7 @@ Proof.
   now rewrite <- N2Z.inj_mul.
 Qed.
 
-Lemma stage1_is : stage1 H modexp is_prime split foreign_ok pk dr env0
+Lemma stage1_is : stage1 H modexp is_prime split pk dr env0
   = ([SendPlain f1], Go (mkst1 (of_be nonce) (of_be srvn) (of_be nn) [f1] f2)).
 Proof.
   unfold stage1. fold nonce nn. rewrite (enc_req_pq_raw nonce Ln On). fold f1.
@@ -396,9 +395,9 @@ Proof.
   apply (dec_reply_dh_ok nonce srvn ct r2 Ln Ls). unfold enc_dh_ok. rewrite (tl_put ct blen_ct). reflexivity.
 Qed.
 
-Lemma request2 : request foreign_ok [f1] f2 env0 = ([SendPlain f2], Go (RDHOk (of_be nonce) (of_be srvn) ct, [f1; f2])).
+Lemma request2 : request [f1] f2 env0 = ([SendPlain f2], Go (RDHOk (of_be nonce) (of_be srvn) ct, [f1; f2])).
 Proof.
-  unfold request. cbn [app wbind emit]. cbn [srv_env]. rewrite r2_is, r2_dec. reflexivity.
+  unfold request. cbn [app wbind emit]. unfold srv_env. cbv beta iota. rewrite r2_is. cbn [option_map]. rewrite r2_dec. reflexivity.
 Qed.
 
 Lemma client_decrypts : try_decrypt_temp H D ct (of_be nn) (of_be srvn) = Ok answer.
@@ -512,7 +511,7 @@ Lemma g_signed : to_i32 g = Z.of_N g.
 Proof. unfold to_i32. pose proof (c_g _ _ _ CF) as Hg. fold g in Hg. destruct (N.ltb_spec g 2147483648); [reflexivity|lia]. Qed.
 
 Lemma stage2_is :
-  stage2 H E D modexp foreign_ok dr env0 (mkst1 (of_be nonce) (of_be srvn) (of_be nn) [f1] f2)
+  stage2 H E D modexp dr env0 (mkst1 (of_be nonce) (of_be srvn) (of_be nn) [f1] f2)
   = ([SendPlain f2], Go (mkst2 (of_be nonce) (of_be srvn) akey hash1 salt [f1; f2] f3)).
 Proof.
   unfold stage2. cbn [s1_nonce s1_srv s1_new s1_hist s1_f2]. rewrite request2. cbn [wbind fst snd].
@@ -603,12 +602,12 @@ Proof.
 Qed.
 
 Lemma stage3_is :
-  stage3 H foreign_ok env0 (mkst2 (of_be nonce) (of_be srvn) akey hash1 salt [f1; f2] f3)
+  stage3 H env0 (mkst2 (of_be nonce) (of_be srvn) akey hash1 salt [f1; f2] f3)
   = ([SendPlain f3; Save akey kh salt], Go (Success akey kh salt)).
 Proof.
   destruct hash1_facts as [Lh Oh].
   unfold stage3. cbn [s2_nonce s2_srv s2_key s2_hash1 s2_salt s2_hist s2_f3].
-  unfold request. cbn [app wbind emit]. cbn [srv_env]. rewrite r3_is.
+  unfold request. cbn [app wbind emit]. unfold srv_env. cbv beta iota. rewrite r3_is. cbn [option_map].
   unfold r3. rewrite (dec_reply_gen_ok nonce srvn hash1 Ln Ls Lh). cbn [ret wbind fst snd app].
   rewrite !N.eqb_refl. cbn [guard wbind ret app].
   assert (F : fixed_bytes 16 (of_be hash1) = hash1) by (rewrite <- Lh; apply fixed_bytes_of_be, Oh).
@@ -633,7 +632,7 @@ Qed.
 
 (* ---------------------------------------------------------------------------------------------- *)
 Theorem agreement :
-  handshake H E D modexp is_prime split foreign_ok pk dr env0
+  handshake H E D modexp is_prime split pk dr env0
     = ([SendPlain f1; SendPlain f2; SendPlain f3; Save akey kh salt], Go (Success akey kh salt)) /\
   srv_secrets H D modexp sp f1 f2 f3 = Some (mksecrets akey kh salt hash1 nn) /\
   length akey = 256%nat /\ salt < 2 ^ 64.
@@ -648,7 +647,7 @@ End Agreement.
 (* the same, with the messages and secrets existentially quantified and the SHA-1 hypothesis stated on the
    server's answer as the server computes it; plus the first encrypted request (Crypto/EnvelopeProofs.v: C03) *)
 Theorem agreement_full (H : bytes -> bytes) (E D : bytes -> bytes -> bytes) (modexp : Z -> Z -> Z -> Z)
-    (is_prime : N -> bool) (split : N -> option (N * N)) (foreign_ok : bytes -> bool) :
+    (is_prime : N -> bool) (split : N -> option (N * N)) :
   (forall m, length (H m) = 20%nat) -> (forall m, okb (H m)) ->
   (forall k b, length (E k b) = 16%nat) -> (forall k b, length (D k b) = 16%nat) ->
   (forall k b, okb k -> okb b -> okb (E k b)) ->
@@ -663,7 +662,7 @@ Theorem agreement_full (H : bytes -> bytes) (E D : bytes -> bytes -> bytes) (mod
      forall i, (0 < i <= pad_need (20 + length answer))%nat ->
        H (answer ++ firstn i (s_pad sp (pad_need (20 + length answer)))) <> H answer) ->
   exists f1 f2 f3 key kid salt hash1,
-    outcome_of (handshake H E D modexp is_prime split foreign_ok (mkpub (s_n sp) (s_e sp)) dr (srv_env H E D modexp sp))
+    outcome_of (handshake H E D modexp is_prime split (mkpub (s_n sp) (s_e sp)) dr (srv_env H E D modexp sp))
       = ([SendPlain f1; SendPlain f2; SendPlain f3; Save key kid salt], Success key kid salt) /\
     srv_secrets H D modexp sp f1 f2 f3 = Some (mksecrets key kid salt hash1 (d_new_nonce dr)) /\
     length key = 256%nat /\
@@ -673,15 +672,15 @@ Theorem agreement_full (H : bytes -> bytes) (E D : bytes -> bytes -> bytes) (mod
      forall sid msgid seq ack body,
        sid < 2 ^ 64 -> msgid < 2 ^ 64 -> seq < 2 ^ 32 -> N.of_nat (length body) < 2 ^ 31 ->
        exists pkt,
-         connect_and_request H E D modexp is_prime split foreign_ok (mkpub (s_n sp) (s_e sp)) dr
+         connect_and_request H E D modexp is_prime split (mkpub (s_n sp) (s_e sp)) dr
              (srv_env H E D modexp sp) sid msgid seq ack body
            = ([SendPlain f1; SendPlain f2; SendPlain f3; Save key kid salt; SendEncrypted pkt], Success key kid salt) /\
          open_server H (ige_decrypt D) key pkt = Some (salt, sid, msgid, EnvelopeProofs.seq_ack seq ack, body)).
 Proof.
   intros HL HO EL DL EO DE ME PS SS sp CF dr DR SX NC.
-  pose proof (answer_is H E D modexp is_prime split foreign_ok HL HO EL DL EO DE ME PS SS sp CF dr DR) as Ha.
+  pose proof (answer_is H E D modexp is_prime split HL HO EL DL EO DE ME PS SS sp CF dr DR) as Ha.
   specialize (NC _ Ha).
-  destruct (agreement H E D modexp is_prime split foreign_ok HL HO EL DL EO DE ME PS SS sp CF dr DR SX) as (A & B & C & S).
+  destruct (agreement H E D modexp is_prime split HL HO EL DL EO DE ME PS SS sp CF dr DR SX) as (A & B & C & S).
   { intros i Hi. apply NC. rewrite (c_pad_len _ _ _ CF) in Hi. exact Hi. }
   do 7 eexists. split; [rewrite A; reflexivity|]. split; [exact B|]. split; [exact C|].
   intros IL II sid msgid seq ack body Hsid Hmsg Hseq Hbody.
